@@ -9,7 +9,7 @@
     [ev_valid] excludes only the empty key in Put/Get/Delete (the property is about non-empty keys;
     query arguments may be empty). *)
 From Coq Require Import List NArith ZArith.
-From Algo.C06 Require Import Spec SpecFacts Model ModelPat ProofsBin ProofsBinQ ProofsBinMain.
+From Algo.C06 Require Import Spec SpecFacts Model ModelPat ProofsBin ProofsBinQ ProofsBinMain PatSweep.
 Import ListNotations.
 
 Local Notation a := 97%N.
@@ -117,6 +117,19 @@ Example C06_example_patricia :
   p_run p_new es = s_run [] es.
 Proof. vm_compute. reflexivity. Qed.
 
+(** Proved part (finite, kernel-checked by vm_compute, deletes included): every history of at most 4
+    mutators (Put/Delete of 5 keys with dense prefix relations, a high byte and a '*', DeleteMin,
+    DeleteMax, DeleteAll: 30941 histories) followed by 96 queries (Size, All, Min, Max, Get / Floor /
+    Ceiling / Rank of 13 present and absent arguments, Select -1..5, Range, RangeSize, Match with 0-3
+    wildcards; not WithPrefix / LongestPrefixOf) returns what the specification returns.
+    Missing for the full statement: the proof for unbounded histories (invariant: bit positions
+    increase along downward links, every upward link targets the node whose key follows the path
+    bits; the four-pointer [remove]) — these rest on the correspondence alone. *)
+Theorem C06_patricia_bounded_partial :
+  forall h, In h (sweep_histories 4 1) ->
+    p_run p_new (h ++ sweep_battery) = s_run [] (h ++ sweep_battery).
+Proof. exact patricia_bounded. Qed.
+
 (** Known findings: the faithful Patricia model refutes the property on WithPrefix, LongestPrefixOf
     and on keys that are equal up to trailing 0x00 bytes (witnesses replayed from corpus/C06). *)
 Theorem C06_patricia_withprefix_refuted :
@@ -151,6 +164,7 @@ Print Assumptions C06_spec_longestprefixof.
 Print Assumptions C06_spec_match.
 Print Assumptions C06_spec_floor.
 Print Assumptions C06_spec_ceiling.
+Print Assumptions C06_patricia_bounded_partial.
 Print Assumptions C06_patricia_withprefix_refuted.
 Print Assumptions C06_patricia_longestprefixof_refuted.
 Print Assumptions C06_patricia_trailing_nul_refuted.
